@@ -18,7 +18,9 @@ pub trait TranscriptProtocol {
         //@ prop(C04,C02,C19) C04.tp_validate_point
             res is Ok <==> !point.is_identity_spec(),
             res is Ok ==> final(self).tlog() == old(self).tlog().push(TEvent::Append(label@, point.bytes_view())),
-            res is Err ==> final(self).tlog() == old(self).tlog();
+            res is Err ==> final(self).tlog() == old(self).tlog(),
+        //@ prop(C06,C01,C05) C06.tp_validate_point_error_kind
+            res is Err ==> res->Err_0 is VerificationFailed;
 
     fn append_scalar(&mut self, label: &'static [u8], scalar: &Scalar)
         ensures
@@ -30,5 +32,7 @@ pub trait TranscriptProtocol {
         //@ prop(C04,C02,C19) C04.tp_challenge_scalar
             final(self).tlog() == old(self).tlog().push(TEvent::Challenge(label@, 64)),
             res is Ok ==> res->Ok_0 == wide_reduce(strobe_prf(old(self).tlog(), label@, 64)) && res->Ok_0 != Scalar::ZERO,
-            res is Err ==> wide_reduce(strobe_prf(old(self).tlog(), label@, 64)) == Scalar::ZERO;
+            res is Err ==> wide_reduce(strobe_prf(old(self).tlog(), label@, 64)) == Scalar::ZERO,
+        //@ prop(C06,C01,C05) C06.tp_challenge_error_kind
+            res is Err ==> res->Err_0 is VerificationFailed;
 }
